@@ -126,7 +126,12 @@ def _post_affinity(geometry1, geometry2, time_buffer, freq_buffer, result):
             # (g) shift invariance
             lo = min(e1[0], e2[0])
             b1, b2 = geoms.ref_bounds(s1), geoms.ref_bounds(s2)
-            if min(b1[0], b2[0]) - tb > 0 and lo > 0:
+            # geometries whose coordinates are >= 1e6 buffer units (e.g. a 5 MHz line with a 1 Hz buffer) are
+            # buffered in a space where GEOS round-off in the mitre joins is amplified: not judged for shifts
+            ratio = max(max(b1[2], b2[2]) / tb if tb else 0, max(b1[3], b2[3]) / fb if fb else 0)
+            if ratio >= 1e6 and (s1["type"] in geoms.ZERO_ONE_D or s2["type"] in geoms.ZERO_ONE_D):
+                c.dc("shift:coordinate_over_buffer_ratio>=1e6")
+            elif min(b1[0], b2[0]) - tb > 0 and lo > 0:
                 dt = [0.5, 3.0, 17.25, 1000.0][hash((s1["type"], s2["type"], round(lo, 3))) % 4]
                 c.mon("affinity.shift")
                 v3 = _orig(geoms.build(geoms.shift_time(s1, dt)), geoms.build(geoms.shift_time(s2, dt)), time_buffer=tb, freq_buffer=fb)
